@@ -133,11 +133,12 @@ impl LineGen {
         let a = self.addrs[rng.usize_below(self.addrs.len())];
         let df18 = rng.chance(0.15);
         let mk = |me: [u8; 7], rng: &mut Rng| if df18 { wire::df18(rng.below(7) as u8, a, me) } else { wire::df17(5, a, me) };
-        match rng.below(if for_1090 { 6 } else { 5 }) {
+        let _ = for_1090;
+        match rng.below(6) {
             0 => mk(wire::me_identification(4, 0, &format!("T{:05}", self.ctr)), rng),
             1 | 2 => {
                 self.odd = !self.odd;
-                let k = a[2] as f64;
+                let k = (a[2] % 8) as f64;
                 let lat = RX.0 + 0.2 + 0.07 * k + 0.0004 * self.ctr as f64;
                 let lon = RX.1 - 0.3 + 0.05 * k + 0.0004 * self.ctr as f64;
                 let (yz, xz) = wire::cpr_encode(lat, lon, self.odd);
@@ -152,15 +153,32 @@ impl LineGen {
                     _ => wire::short_ap(5, self.ctr & 0x1fff, a),
                 }
             }
-            _ => wire::df11((self.ctr % 8) as u8, a),
+            _ => {
+                // replies of every other downlink format, with arbitrary payload bytes
+                let mut p = [0u8; 11];
+                for x in p.iter_mut() {
+                    *x = rng.next_u64() as u8;
+                }
+                match rng.below(7) {
+                    0 => wire::df11((self.ctr % 8) as u8, a),
+                    1 => wire::short_ap(0, rng.next_u64() as u32, a),
+                    2 => wire::short_ap(4, rng.next_u64() as u32, a),
+                    3 => wire::short_ap(5, rng.next_u64() as u32, a),
+                    4 => wire::long_ap(16, p, a),
+                    5 => wire::long_ap(20 + rng.below(2) as u8, p, a),
+                    _ => wire::long_ap(24 + rng.below(8) as u8, p, a),
+                }
+            }
         }
     }
 
     fn good_line(&mut self, rng: &mut Rng, for_1090: bool) -> Vec<u8> {
         let f = self.frame(rng, for_1090);
         let mut h = wire::hex(&f);
-        if rng.chance(0.2) {
-            h = h.to_uppercase();
+        match rng.below(10) {
+            0 | 1 => h = h.to_uppercase(),
+            2 => h = h.chars().map(|c| if rng.coin() { c.to_ascii_uppercase() } else { c }).collect(),
+            _ => {}
         }
         format!("*{h};\n").into_bytes()
     }
@@ -207,7 +225,9 @@ pub fn generate(rng: &mut Rng, fault_free: bool) -> K16 {
     let limit_parsing = !for_1090 && rng.chance(0.15);
     let mut faults: Vec<String> = vec![];
     let naddr = 1 + rng.usize_below(5);
-    let mut lg = LineGen { ctr: rng.below(1000) as u32, addrs: (0..naddr).map(|i| [0xa0, rng.below(4) as u8, 1 + i as u8]).collect(), odd: false };
+    let mut lg = LineGen { ctr: rng.below(1000) as u32, addrs: (0..naddr).map(|i| if rng.chance(0.3) { [rng.next_u64() as u8, rng.next_u64() as u8, rng.next_u64() as u8] } else { [0xa0, rng.below(4) as u8, 1 + i as u8] }).collect(), odd: false };
+    lg.addrs.sort();
+    lg.addrs.dedup();
     // swarm: which fault kinds are on in this run
     let malformed_rate: f64 = if !fault_free && rng.coin() { *rng.pick(&[0.05, 0.15, 0.4]) } else { 0.0 };
     let seg_mode = if fault_free { 0 } else { rng.below(6) }; // 0 line aligned, 1 many lines per segment, 2 random cuts, 3 one-byte stretch, 4 cut before terminators, 5 mixed
